@@ -369,8 +369,12 @@ pub fn run_c12(ctx: &Ctx) -> i32 {
                         }
                     };
                     if let Some((sent, got, want)) = out.stalled {
+                        // when the batch ends in a quiet command, what is withheld differs from the loud
+                        // variant of the same batch only because of the quiet command's silence (C19)
+                        let last_quiet = frames.iter().enumerate().filter(|(i, _)| ends[*i] <= sent).last().map(|(_, f)| op::is_quiet(f.opcode)).unwrap_or(false);
+                        let tags: &[&'static str] = if last_quiet { &["C12", "C10", "C09", "C19"] } else { &["C12", "C10", "C09"] };
                         shared.lock().unwrap().violation(
-                            Viol::new(&["C12", "C10", "C09"], "complete-request-unanswered", format!("after {} stream bytes the server is idle in read but only {} of the {} loud requests sent completely so far have been answered", sent, got, want)),
+                            Viol::new(tags, "complete-request-unanswered", format!("after {} stream bytes the server is idle in read but only {} of the {} loud requests sent completely so far have been answered", sent, got, want)),
                             describe(json!({"end": format!("{:?}", out.end)})),
                         );
                         continue;
@@ -536,7 +540,66 @@ pub fn run_c12(ctx: &Ctx) -> i32 {
     });
     // quit / quitq followed by more requests on a connection that is reset while the quit is pending
     quit_reset_scenarios(ctx, &shared);
+    // a connection that only sends silent quiet commands is an active connection
+    quiet_keepalive_scenario(&shared);
     shared.into_inner().unwrap().finish()
+}
+
+/// Replacing set by setq must change nothing but the responses: a stream of quiet stores paced below the
+/// idle timeout (1 s) for longer than the timeout must be applied in full, exactly like its loud twin,
+/// and the connection must stay open.
+fn quiet_keepalive_scenario(shared: &Mutex<Evidence>) {
+    let mut results: Vec<(bool, usize, bool)> = vec![];
+    std::thread::scope(|s| {
+        let hs: Vec<_> = [false, true]
+            .into_iter()
+            .map(|quiet| {
+                s.spawn(move || -> Option<(bool, usize, bool)> {
+                    let srv = Server::start(SrvCfg { idle_s: 1, ..Default::default() }).ok()?;
+                    let mut c = Cli::connect(srv.port).ok()?;
+                    let n = 9usize;
+                    for i in 0..n {
+                        let k = format!("ka-{}-{}", quiet, i).into_bytes();
+                        let f = wire::store(if quiet { op::SETQ } else { op::SET }, &k, b"v", 0, 0, i as u32, 0);
+                        use std::io::Write;
+                        if c.s.write_all(&f.encode()).is_err() {
+                            break;
+                        }
+                        std::thread::sleep(Duration::from_millis(300));
+                        c.drain();
+                    }
+                    let open = c.end == End::Open && !conn_log().get(c.port).exited;
+                    let mut obs = Cli::connect(srv.port).ok()?;
+                    let mut stored = 0;
+                    for i in 0..n {
+                        let k = format!("ka-{}-{}", quiet, i).into_bytes();
+                        if ask(&mut obs, &wire::get(op::GET, &k, 50 + i as u32)).map(|r| r.status == st::OK).unwrap_or(false) {
+                            stored += 1;
+                        }
+                    }
+                    Some((quiet, stored, open))
+                })
+            })
+            .collect();
+        for h in hs {
+            if let Ok(Some(r)) = h.join() {
+                results.push(r);
+            }
+        }
+    });
+    let mut e = shared.lock().unwrap();
+    for (quiet, stored, open) in &results {
+        e.evaluations += 1;
+        e.count(&format!("keepalive:{}:stored", if *quiet { "setq" } else { "set" }), *stored as u64);
+        e.nontrivial.insert(fnv(format!("keepalive:{}", quiet).as_bytes()));
+        if *stored != 9 || !*open {
+            let tags: &[&'static str] = if *quiet { &["C19", "C12"] } else { &["C12", "C17"] };
+            e.violation(
+                Viol::new(tags, "active-connection-dropped", format!("9 {} commands paced 300 ms apart (idle timeout 1 s): {} were applied, connection open afterwards: {}", if *quiet { "setq" } else { "set" }, stored, open)),
+                json!({"engine":"pipe-keepalive","quiet":quiet,"stored":stored,"open":open}),
+            );
+        }
+    }
 }
 
 /// "Nothing received after quit/quitq is executed" must also hold when the peer has already reset the
